@@ -323,6 +323,12 @@ def do_run(prop, tier, seed, only, write_evidence):
     dbg = (lambda m: sys.stderr.write('[%6.1fs] %s\n' % (time.time() - t0, m))) if os.environ.get('VERIF_DEBUG') else (lambda m: None)
     mod = _load(prop)
     known, fixed = load_ledger(prop)
+    # replay files of earlier runs of this property are stale by definition
+    rdir = os.path.join(VERIF, 'replays')
+    if os.path.isdir(rdir):
+        for fn in os.listdir(rdir):
+            if fn.startswith(prop + '-') and fn.endswith('.json'):
+                os.remove(os.path.join(rdir, fn))
     out_lines = []
     violations = []          # (sig, replay_path)
     known_hits = {}
